@@ -69,7 +69,7 @@ struct SimFile {
 	int opens = 0;
 	std::string written;                 // last content written through the seam
 };
-struct OpenRecord { std::string path; int nth; bool ok; int err; std::string delivered; bool complete; };
+struct OpenRecord { std::string path; int nth; bool ok; int err; std::string delivered; bool complete; bool writing = false; };
 
 struct Sim {
 	// gating
